@@ -70,7 +70,9 @@ for p in PROPS:
             "engine": "sa",
             "level_claimed": {"category": cat, "text": text, "design_ref": f"DESIGN.md section {ref}"},
             "level_note": NOTE.get(pid, DEFAULT_NOTE),
-            "technique": TECH[pid],
+            "technique": TECH[pid] + "; plus the shared premises of the argument (file-to-parser chain, cited properties' premises) and "
+                                     "the resolved-program model premises (single binding, modelled decorators, no resolution hooks, operator and "
+                                     "constructor tables) checked on the whole package",
         })
     else:
         na.append({"property_id": pid, "reason": "check not built yet (framework under construction; DESIGN.md section 8)"})
